@@ -1538,6 +1538,13 @@ func (dsc *dataStoreCommand) lmove(srcKeyName, destKeyName string, srcLeft, dest
 		return
 	}
 
+	if srcKeyName == destKeyName && srcList.count == 1 {
+		// rotating a single-element list onto itself leaves it as it is; popping first
+		// would remove the emptied key and push the element into a detached list
+		output.data = respBulkString(srcList.head.element)
+		return
+	}
+
 	// remove the item from the source list
 	var item *listItem
 	if srcLeft {
